@@ -444,3 +444,59 @@ def r6(ctx):
         ok = "store:app.keep_running" in names and "appsock.close" in names and names.index("store:app.keep_running") < names.index("appsock.close") \
             and f.get("sock") == NONE and f.get("keep_running") == FALSE
         ctx.ob(f"{APP}.close:order", ok, f"effects {names}", idx.loc(idx.func(f"{APP}.close").node))
+
+
+@rule("R-C14-7", min_instances=10, title="close() from another thread before any statement of the loop-side closures: the run ends cleanly (one on_close, last; no error reported; result False)")
+def r7(ctx):
+    """One asynchronous event (the application's close(), run atomically by another thread) is injected at every
+    statement boundary of setSock / read / check / Dispatcher.read / SSLDispatcher.read in otherwise clean runs."""
+    loc = ctx.index.loc(ctx.index.func(RF).node)
+
+    def action(I, run, st):
+        app = next(a for a, c in run.heap.items() if getattr(c, "label", "") == "app")
+        run.effect("--other-thread: app.close()")
+        I.call(run, I.getattr(run, Ref(app), "close", None), [], {}, st)
+
+    targets = {f"{RF}.read", f"{RF}.setSock", f"{RF}.check"}
+    orig_init = Interp.__init__
+
+    def patched(self, index, config=None):
+        orig_init(self, index, config)
+        self.cfg.preempt_in = set(targets)
+        self.cfg.preempt_action = action
+
+    Interp.__init__ = patched
+    try:
+        I, outs = run_forever_paths(ctx, reconnect=0)
+    finally:
+        Interp.__init__ = orig_init
+    per = {}
+    for o in outs:
+        at = o.run.memo.get("@preempted")
+        if o.kind == "cutoff" or not at:
+            continue
+        sc = _scenario(o)
+        # otherwise clean runs only: connect succeeds, no loss / timeout / interrupt injected, frames are TEXT or CLOSE
+        if sc.get("connect") != 0 or sc.seq["loop"][:1] not in ([0], []) or any(f in (2, 3) for f in sc.seq["frame"]):
+            continue
+        calls = [e.name for e in user_calls(o)]
+        errs = [I.exc_class_name(o.run, e.args[1]) for e in o.effects if e.name == "on_error"]
+        ok = o.kind == "return" and o.value == FALSE and not errs and calls.count("on_close") == 1 and calls[-1] == "on_close" \
+            and _app_fields(o).get("sock") == NONE
+        stmt = next((d.text for d in o.decisions if d.text.startswith("another thread runs before") and d.choice == 1), at)
+        fn = "?"
+        for q in targets:
+            f = ctx.index.func(q).node
+            ln = int(at.rsplit(":", 1)[1])
+            if f.lineno <= ln <= f.end_lineno:
+                fn = q if fn == "?" or ctx.index.func(fn).node.lineno < f.lineno else fn
+        key = f"{fn}:{stmt.replace('another thread runs before ', '')}"
+        per.setdefault(key, []).append((ok, o, errs, calls))
+    if len(per) < 10:
+        raise AnalysisError(f"only {len(per)} preemption points explored")
+    for key, lst in sorted(per.items()):
+        bad = [x for x in lst if not x[0]]
+        ctx.ob(f"close()-from-another-thread-before:{key}", not bad, f"{len(lst)} runs end cleanly" if not bad else
+               f"another thread calls close() right before {key.split(':', 2)[-1]}: callbacks {bad[0][3]}, on_error({bad[0][2]}), result {bad[0][1].kind} {bad[0][1].value!r} -- "
+               f"the application's own close() must end the run with one on_close, no error and result False",
+               bad[0][1].run.memo.get("@preempted") if bad else loc, {"path": path_text(bad[0][1], 10)} if bad else None)
